@@ -9,6 +9,10 @@ ids = [json.loads(l)['id'] for l in (V / 'properties.jsonl').read_text().splitli
 TECH = 'contract-based deductive verification: own VC generator (pyvc) over the real .py/.pyx source, sidecar contracts, z3/cvc5'
 
 CLAIMED = {
+	'C15': dict(
+		text='Lemmas over the C02 postcondition: the merge loop, read from both sides, proves inter(A,B) = inter(B,A), so the value is bit-for-bit symmetric and mentions element values only (all nine type pairings); inductive set lemmas (distance 0 iff equal sets, 1 iff disjoint and not both empty) plus bit-precise FP lemmas (range and zero for all sizes < 2^62, one-iff for < 2^24); triangle inequality as a polynomial identity over the seven Venn regions with 61 non-negative monomials plus three half-ulp roundings; strict decrease proved for |A or B|+1 <= 2^23 (standard model of rounding, bit-precise for small sizes). Above 2^23 the strict-decrease obligation fails, the counter-model replays on the real kernel, and it is listed as a known finding.',
+		note='Trusted: C02 base; standard model of correctly rounded arithmetic (half-ulp bound); set arithmetic linking sets to (|A xor B|, |A or B|). Known finding: strict decrease above 2^23 elements (known_findings.json).',
+		design='3/C15'),
 	'C01': dict(
 		text='find_kmers (both search loops and the upper-casing loop, as a generator with ghost yield sequence), KmerMatch.kmer_index/kmer_indices, accumulate_kmers, both accumulators, default_accumulator, calc_signature, KmerSpec.__init__, index_dtype and nkmers are verified against a declarative spec (set of indices of valid k-mers following a prefix occurrence on either strand of the upper-cased text) for all sequences, all k <= 32, all non-empty ACGT prefixes, the four input types and all accumulator choices; result sorted, duplicate free and of the smallest unsigned dtype. Bridging lemmas (case folding, revcomp of the prefix) are separate obligations. A bounded run of the real calc_signature against a brute-force enumeration accompanies it and supplies replayable inputs.',
 		note='Trusted: C07 base for the compiled encoders, library contracts for bytes.find/upper/slicing and numpy zeros/flatnonzero/astype/fromiter/sort, generators as yielded sequences. Bounds in requires: k <= 32, lengths < 2^31.',
